@@ -540,21 +540,41 @@ void Executor::fillModel(State &s, Failure &f, z3::model *m) {
         f.stack.push_back(l);
     }
 }
-void Executor::fail(State &s, const std::string &kind, const std::string &msg, const Instruction *at, const z3::expr *extra) {
+bool Executor::report(State &s, const std::string &kind, const std::string &msg, const Instruction *at, const z3::expr &bad, bool hard) {
     Failure f; f.kind = kind; f.msg = msg; f.loc = locOf(at);
     f.func = at && at->getFunction() ? at->getFunction()->getName().str() : "";
-    std::string key = kind + "|" + msg.substr(0, 60) + "|" + f.loc;
-    if (opt.dedupFailures && failureKeys.count(key)) return;
-    z3::model m(*ZC);
-    bool have = false;
-    if (!opt.concrete) {
-        z3::check_result r = check(s, extra ? *extra : ZC->bool_val(true), opt.assertTimeoutMs, &m);
-        if (r == z3::unsat) return;   // not actually reachable (lazy paths)
-        if (r == z3::unknown) { inconclusive = true; inconclusiveWhy = "solver unknown when confirming failure: " + msg + " at " + f.loc; return; }
-        have = true;
+    std::string key = kind + "|" + msg.substr(0, 80) + "|" + f.loc;
+    unsigned tmo = opt.assertTimeoutMs;
+    if (opt.concrete) {
+        if (opt.dedupFailures && failureKeys.count(key)) return true;
+        failureKeys.insert(key); fillModel(s, f, nullptr); failures.push_back(f);
+        return true;
     }
-    failureKeys.insert(key);
-    fillModel(s, f, have ? &m : nullptr);
-    failures.push_back(f);
-    if (opt.verbose) errs() << "[nixsym] FAILURE " << kind << ": " << msg << " at " << f.loc << "\n";
+    z3::expr notKnown = ZC->bool_val(true);
+    std::vector<std::pair<std::string, z3::expr>> act;
+    for (auto &k : s.known) if (opt.knownIds.count(k.first)) { act.push_back(k); notKnown = notKnown && !k.second; }
+    bool feasible = false;
+    // (a) outside every known finding
+    if (!(opt.dedupFailures && failureKeys.count(key))) {
+        z3::model m(*ZC);
+        z3::check_result r = check(s, bad && notKnown, tmo, &m);
+        if (r == z3::unknown) { inconclusive = true; inconclusiveWhy = "solver gave no verdict within budget for '" + msg + "' at " + f.loc; feasible = true; }
+        else if (r == z3::sat) {
+            feasible = true; failureKeys.insert(key); fillModel(s, f, &m); failures.push_back(f);
+            if (opt.verbose) errs() << "[nixsym] FAILURE " << kind << ": " << msg << " at " << f.loc << "\n";
+        }
+    } else feasible = true;
+    // (b) inside each known finding
+    for (auto &k : act) {
+        if (knownHits.count(k.first)) { if (!feasible) { bool u; if (mayBeTrue(s, bad && k.second, u)) feasible = true; } continue; }
+        z3::model m(*ZC);
+        z3::check_result r = check(s, bad && k.second, tmo, &m);
+        if (r == z3::sat) { Failure kf = f; kf.model.clear(); kf.knownFinding = true; kf.findingId = k.first; fillModel(s, kf, &m); knownHits[k.first] = kf; feasible = true; }
+        else if (r == z3::unknown) { feasible = true; }
+    }
+    (void)hard;
+    return feasible;
+}
+void Executor::fail(State &s, const std::string &kind, const std::string &msg, const Instruction *at, const z3::expr *extra) {
+    report(s, kind, msg, at, extra ? *extra : ZC->bool_val(true), true);
 }
